@@ -627,6 +627,22 @@ theorem FinishSpec.flags {mode : Mode} {neg : Bool} {v : ℚ} {pref : Int} {out 
   · right; refine ⟨hm, ?_⟩; rw [ho]; dsimp only; split <;> simp
   · right; refine ⟨hm, ?_⟩; rw [ho]; simp
 
+/-- every correct delivery is a well-formed datum -/
+theorem FinishSpec.wf {mode : Mode} {neg : Bool} {v : ℚ} {pref : Int} {out : Datum × Flags}
+    (h : FinishSpec mode neg v pref out) : out.1.WF := by
+  rcases h with ⟨_, m, x, ho, _, hr, _⟩ | ⟨_, m, x, ho, h1, h2, h3, _⟩ | ⟨_, ho, _⟩
+  · rw [ho]; exact hr
+  · rw [ho]; exact ⟨h1, h2, h3⟩
+  · rw [ho]
+    show (overflowResult mode neg).WF
+    unfold overflowResult
+    cases mode <;> cases neg <;> simp [Datum.WF] <;> decide
+
+/-- the result of `finish` is always a well-formed datum -/
+theorem finish_wf (mode : Mode) (s : Bool) (n d : Nat) (e pref : Int) (hn : 0 < n) (hd : 0 < d) :
+    (finish mode s n d e pref).1.WF :=
+  (finish_spec mode s n d e pref hn hd).wf
+
 /-- whenever `finish` raises no flag and returns a finite datum, that datum has exactly the value
 `(n/d)·10^e` -/
 theorem finish_exact_value (mode : Mode) (s : Bool) (n d : Nat) (e pref : Int) (hn : 0 < n) (hd : 0 < d)
